@@ -672,3 +672,11 @@ impl InstrFormat for MsgHooks {
         f.write_u32(0)
     }
 }
+
+#[cfg(truth_verif)]
+pub fn verif_language_hooks(game: Game, language: LanguageKey) -> Option<Box<dyn LanguageHooks>> {
+    match game {
+        Game::Th095 | Game::Th125 => None,
+        _ => Some(FileFormat { game, language }.language_hooks()),
+    }
+}
